@@ -54,6 +54,7 @@ type world struct {
 	subHold   chan struct{}
 	upLatency func() time.Duration
 	upOutcome func() string
+	idRepeat  int // consecutive invocations sharing one request id (Lambda retries an asynchronous invocation under its id); 0 or 1 = none
 }
 
 func (w *world) add(e entry) {
@@ -93,7 +94,11 @@ func (w *world) lambdaAPI() http.Handler {
 		select {
 		case typ := <-w.nextCh:
 			rw.WriteHeader(200)
-			fmt.Fprintf(rw, `{"eventType":%q,"deadlineMs":1,"requestId":"r%d","invokedFunctionArn":"arn","shutdownReason":"spindown"}`, typ, n)
+			id := n
+			if w.idRepeat > 1 {
+				id = n / w.idRepeat
+			}
+			fmt.Fprintf(rw, `{"eventType":%q,"deadlineMs":1,"requestId":"r%d","invokedFunctionArn":"arn","shutdownReason":"spindown"}`, typ, id)
 		case <-r.Context().Done():
 		}
 	})
@@ -334,6 +339,8 @@ func TestExtensionOrdering(t *testing.T) {
 		var umu sync.Mutex
 		ui, oi := 0, 0
 		w := &world{nextCh: make(chan string), nextSeen: make(chan int, 16), subHold: make(chan struct{})}
+		// an invocation is an invocation whatever its request id: retried invocations arrive under the id of the first attempt
+		w.idRepeat = rapid.SampledFrom([]int{1, 1, 1, 2, 3, 1000}).Draw(t, "invocations-per-request-id")
 		w.upLatency = func() time.Duration {
 			umu.Lock()
 			defer umu.Unlock()
